@@ -8,7 +8,7 @@ exec 9>"$WORK/build.lock"; flock 9
 case "$ID" in
   C18) KIND=test18;;
   C19) KIND=inst; CFG=c19; MAINPKG=vhc19; RACE=1; TARGETS="internal/core/runtime:index.go,imports.go cue:decode.go internal/core/convert:go.go internal/core/adt:context.go cue/token:position.go";;
-  C17) KIND=inst; CFG=c17; MAINPKG=vhc17; TARGETS="internal/par:work.go,queue.go internal/mod/modpkgload:pkgload.go internal/mod/modload:tidy.go,query.go internal/mod/modrequirements:requirements.go";;
+  C17) KIND=inst; CFG=c17; MAINPKG=vhc17; RACE=1; TARGETS="internal/par:work.go,queue.go internal/mod/modpkgload:pkgload.go internal/mod/modload:tidy.go,query.go internal/mod/modrequirements:requirements.go";;
   C14) KIND=inst; CFG=c14; MAINPKG=vhc14; TARGETS="internal/par:work.go internal/mod/mvs:mvs.go";;
   *) KIND=plain;;
 esac
